@@ -3,6 +3,7 @@ package larking
 import (
 	"context"
 	"encoding/base64"
+	"io"
 	"net/http"
 	"net/url"
 	"sync"
@@ -73,6 +74,25 @@ func vfEchoUnaryHandler(srv interface{}, ctx context.Context, dec func(interface
 	return reply, nil
 }
 
+// vfPureMarkCompressor: the marking "compression" of vfMarkCompressor without any state of its own
+// (the fake must not add shared memory to a concurrency harness).
+type vfPureMarkCompressor struct{}
+
+func (vfPureMarkCompressor) Name() string { return "zz" }
+func (vfPureMarkCompressor) Compress(w io.Writer) (io.WriteCloser, error) {
+	return &vfMarkWriter{w: w}, nil
+}
+func (vfPureMarkCompressor) Decompress(r io.Reader) (io.Reader, error) {
+	all, err := io.ReadAll(r)
+	if err != nil {
+		return nil, err
+	}
+	if len(all) < 2 || all[0] != 'Z' || all[1] != ':' {
+		return nil, errVfCodec
+	}
+	return &vfYieldReader{vfWholeReader{data: all[2:]}}, nil
+}
+
 // VerifH_conc_requests (C13): two requests served CONCURRENTLY by one mux (every mix of HTTP
 // transcoding, gRPC and gRPC-web text; scheduling points at every pool operation, atomic load and
 // network read / write): each handler replies with a function of the bytes it received, and each
@@ -87,7 +107,7 @@ func VerifH_conc_requests() {
 	rule.Body = "*"
 	md := &fakeMethod{full: "vf.S.M0", in: in, out: out, opts: &fakeOpts{rule: rule}}
 	svc := &fakeSvc{full: "vf.S", methods: &fakeMethodList{list: []*fakeMethod{md}}}
-	mux, err := NewMux(FilesOption(vfRegistry(svc)), CodecOption("application/x", vfPureCodec{}))
+	mux, err := NewMux(FilesOption(vfRegistry(svc)), CodecOption("application/x", vfPureCodec{}), CompressorOption("zz", vfPureMarkCompressor{}))
 	if err != nil {
 		vfFail("NewMux failed")
 	}
@@ -103,10 +123,17 @@ func VerifH_conc_requests() {
 	var ws [2]*fakeRW
 	var rs [2]*http.Request
 	for i := 0; i < 2; i++ {
-		kinds[i] = vfChoice(3)
+		kinds[i] = vfChoice(4)
 		p := payloads[i]
 		frame := append([]byte{0, 0, 0, 0, byte(len(p))}, p...)
 		switch kinds[i] {
+		case 3:
+			// gRPC with per-message compression: the decompression buffer is pooled as well
+			zp := append([]byte("Z:"), p...)
+			zframe := append([]byte{1, 0, 0, 0, byte(len(zp))}, zp...)
+			rs[i] = &http.Request{Method: "POST", URL: &url.URL{Path: "/vf.S/M0"},
+				Header: http.Header{"Content-Type": []string{"application/grpc+pure"}, "Te": []string{"trailers"}, "Grpc-Encoding": []string{"zz"}},
+				Body:   vfNopCloser{&vfYieldReader{vfWholeReader{data: zframe}}}, ContentLength: -1, ProtoMajor: 2}
 		case 0:
 			rs[i] = &http.Request{Method: "POST", URL: &url.URL{Path: "/aa/zz"},
 				Header: http.Header{"Content-Type": []string{"application/x"}, "Accept": []string{"application/x"}},
@@ -123,6 +150,8 @@ func VerifH_conc_requests() {
 		}
 		ws[i] = newFakeRW()
 	}
+	// compressed calls are paired with gRPC calls only (compressed or not): they share the gRPC pools
+	vfAssume(!((kinds[0] == 3 && (kinds[1] == 0 || kinds[1] == 2)) || (kinds[1] == 3 && (kinds[0] == 0 || kinds[0] == 2))))
 	var wg sync.WaitGroup
 	for i := 0; i < 2; i++ {
 		i := i
@@ -138,6 +167,12 @@ func VerifH_conc_requests() {
 		want := append([]byte("R:"), payloads[i]...)
 		w := ws[i]
 		switch kinds[i] {
+		case 3:
+			plain := append([]byte{0, 0, 0, 0, byte(len(want))}, want...)
+			zw := append([]byte("Z:"), want...)
+			comp := append([]byte{1, 0, 0, 0, byte(len(zw))}, zw...)
+			vfCheck(w.status == 200 && (vfBytesEq(w.body, plain) || vfBytesEq(w.body, comp)), "a compressed gRPC call's response is not the reply to its own request (bytes of a concurrent request leaked in)")
+			vfCover("grpc-compressed")
 		case 0:
 			vfCheck(w.status == 200 && vfBytesEq(w.body, want), "a transcoded response is not the reply to its own request (bytes of a concurrent request leaked in)")
 			vfCover("http")
